@@ -278,7 +278,26 @@ func (g *ExprGen) unary(in []*ref.V, depth int) *ref.Expr {
 			return ref.Fn1("has", ref.Lit(ref.IntV(int64(r.IntN(len(v.A)+2)))))
 		case c < 13:
 			if len(v.A) > 0 {
-				return ref.Fn1("contains", &ref.Expr{Op: ref.OpCollect, L: ref.Lit(g.litScalar(v.A[r.IntN(len(v.A))]))})
+				// an argument of 1..4 elements drawn from the input (repeats allowed, so it may be longer
+				// than the input and still be contained), sometimes a substring of a string element
+				n := 1 + r.IntN(4)
+				var u *ref.Expr
+				for i := 0; i < n; i++ {
+					el := v.A[r.IntN(len(v.A))]
+					lit := g.litScalar(el)
+					if el.K == ref.Str && len(el.S) > 1 && isASCII(el.S) && ref.ExprStringOK(el.S) && okKey(el.S) && r.IntN(2) == 0 {
+						lit = ref.StrV(el.S[:1+r.IntN(len(el.S)-1)])
+						if !okKey(lit.S) {
+							lit = ref.StrV(el.S)
+						}
+					}
+					if u == nil {
+						u = ref.Lit(lit)
+					} else {
+						u = ref.Union(u, ref.Lit(lit))
+					}
+				}
+				return ref.Fn1("contains", &ref.Expr{Op: ref.OpCollect, L: u})
 			}
 			return ref.Fn1("contains", &ref.Expr{Op: ref.OpCollect})
 		case c < 14:
@@ -523,4 +542,13 @@ func (g *ExprGen) Gen(in []*ref.V, depth int) *ref.Expr {
 		}
 		return &ref.Expr{Op: ref.OpReduce, L: src, S: "i", Args: []*ref.Expr{init}, R: body}
 	}
+}
+
+func isASCII(s string) bool {
+	for i := 0; i < len(s); i++ {
+		if s[i] >= 0x80 {
+			return false
+		}
+	}
+	return true
 }
